@@ -31,16 +31,27 @@ REQUIRED = ['qstar_consistent', 'score_rowwise', 'score_identity', 'score_equati
             'range_binary', 'range_binary_closed', 'unbound_range', 'range_continuous', 'range_crossfit',
             'unit_bounds_range', 'unit_roundtrip', 'unit_roundtrip_clip', 'expit_real_range',
             'expit_real_strictMono', 'expit_logit_real', 'range_binary_real', 'score_equations_real', 'tmle_fit_generated_binary', 'tmle_fit_generated_continuous', 'tmle_fit_generated_useMiss']
-RULE = ('TMLE.fit: every cell of outcome {binary, continuous} x outcome missingness {none, missing without model, '
+RULE = ('TMLE.fit: (1) every cell of outcome {binary, continuous} x outcome missingness {none, missing without model, '
         'missing with missing_model} x g truncation {none, symmetric, asymmetric} x covariates {categorical only, '
         'categorical + continuous}, with alpha, continuous_bound, outcome-model bound, missing-model bound, GLM family '
-        'of the continuous outcome model, sample size and row index drawn at random inside the cell; data sets are '
-        'simulated (logistic treatment / outcome / missingness mechanisms with random coefficients). '
+        'of the continuous outcome model, sample size drawn at random inside the cell; every second repetition also '
+        'varies the exposure / covariate dtype (int8..int64, uint8, float), the row index (range, shifted permutation, '
+        'strings, repeated labels), formula term order, the order in which the three nuisance models are specified and '
+        'which of them use the custom_model (sklearn-style, optionally warm_start) path; (2) call histories on one '
+        'object: fit twice with summary() in between, re-specify the outcome / exposure / missing model (other formula, '
+        'bound, family, custom learner) after a fit and fit again, re-specify everything, two estimators built from one '
+        'caller frame with interleaved calls -- the state after the LAST fit is judged by the property predicates and '
+        'against a fresh object given the last specification; (3) the custom_model path of each nuisance model alone '
+        'and together; (4) extreme but valid data: near-positivity violations without g truncation (g down to 1e-7, '
+        'eps/g beyond the overflow threshold of exp), outcome risks of a few per cent. All predicates use the A and Y '
+        'of the frame the caller passed in (snapshot taken before the estimator sees it). Data sets are simulated '
+        '(logistic treatment / outcome / missingness mechanisms with random coefficients). '
         'Cross-fit: direct calls of targeting_step / tmle_calculator on generated nuisance predictions with 2-4 '
         'splits, and SingleCrossfitTMLE / DoubleCrossfitTMLE end to end with GLM / logistic learners. '
-        'distinct = distinct (cell, data seed); non-trivial = both fluctuation coefficients differ from 0 by more than '
-        '1e-6 (the targeting step really moves the initial fit) and at least one g value was truncated when a bound '
-        'was requested')
+        'Any exception raised by zEpid on such input, and any output the harness cannot process, is a D failure. '
+        'distinct = distinct (cell, history, data seed); non-trivial = both fluctuation coefficients differ from 0 by '
+        'more than 1e-6 (the targeting step really moves the initial fit) and at least one g value was truncated when '
+        'a bound was requested')
 ASSUMPTIONS = ['statsmodels GLM (Binomial, logit link, offset, missing="drop") returns coefficients solving its own score '
                'equations for the two design columns (H1W, H0W): measured on a reference fit by the harness (gate H)',
                'scipy.stats.logistic.cdf is the inverse logit 1/(1+exp(-x)) and np.log(p/(1-p)) its inverse (the model '
@@ -59,19 +70,29 @@ def expit(x):
 
 # ------------------------------------------------------------------------------------------------ data
 def gen_data(dseed, cfg):
-    """simulated cohort; everything derives from (dseed, cfg) so a failing case replays exactly"""
-    for attempt in range(50):
+    """simulated cohort; everything derives from (dseed, cfg) so a failing case replays exactly.
+    cfg keys used: outcome, missing, xcont, nlo, nhi and the optional `extreme` (near-positivity: a strong continuous
+    confounder drives g to 1e-5 .. 1e-8 on some rows), `rare` (risk of a few per cent), `adtype`, `index`"""
+    extreme = bool(cfg.get('extreme'))
+    rare = bool(cfg.get('rare'))
+    for attempt in range(200):
         r = np.random.default_rng([dseed, attempt])
         n = int(r.integers(cfg['nlo'], cfg['nhi']))
         w1 = r.integers(0, 2, n)
         w2 = r.integers(0, 3, n)
         x = np.round(r.normal(size=n), 3)
         ba = r.normal(0, 0.8, 4)
-        lin = r.normal(0, 0.4) + ba[0] * w1 + ba[1] * (w2 == 1) + ba[2] * (w2 == 2) + (ba[3] * x if cfg['xcont'] else 0)
+        if extreme:
+            lin = r.normal(0, 0.3) + 0.3 * ba[0] * w1 + float(r.choice([-1, 1])) * r.uniform(3.0, 4.5) * x
+        else:
+            lin = (r.normal(0, 0.4) + ba[0] * w1 + ba[1] * (w2 == 1) + ba[2] * (w2 == 2) +
+                   (ba[3] * x if cfg['xcont'] else 0))
         a = (r.uniform(size=n) < expit(lin)).astype(int)
         by = r.normal(0, 0.7, 6)
         liny = (r.normal(0, 0.4) + by[0] * a + by[1] * w1 + by[2] * (w2 == 1) + by[3] * (w2 == 2) + by[5] * a * w1 +
                 (by[4] * x if cfg['xcont'] else 0))
+        if rare:
+            liny = liny - 2.8
         if cfg['outcome'] == 'binary':
             y = (r.uniform(size=n) < expit(liny)).astype(float)
         else:
@@ -84,23 +105,36 @@ def gen_data(dseed, cfg):
         ok = 10 <= a.sum() <= n - 10 and np.isnan(y).sum() <= n // 2
         yo = y[~np.isnan(y)]
         if cfg['outcome'] == 'binary':
+            need = 3 if rare else 5
             for arm in (0, 1):
                 ya = y[(a == arm) & ~np.isnan(y)]
-                ok = ok and 5 <= ya.sum() <= len(ya) - 5
+                ok = ok and need <= ya.sum() <= len(ya) - need
         else:
             ok = ok and len(np.unique(yo)) > 10
         if cfg['missing'] != 'none':
             ok = ok and np.isnan(y).sum() >= 5
         if not ok:
             continue
-        kind = int(r.integers(0, 3))
-        if kind == 0:
+        kind = cfg.get('index') or ('range', 'shifted', 'even')[int(r.integers(0, 3))]
+        if kind == 'range':
             idx = np.arange(n)
-        elif kind == 1:
+        elif kind == 'shifted':
             idx = r.permutation(n) + int(r.integers(1, 1000))
-        else:
+        elif kind == 'even':
             idx = np.arange(n) * 2 + 5
-        return pd.DataFrame({'A': a, 'Y': y, 'W1': w1, 'W2': w2, 'X': x}, index=idx)
+        elif kind == 'string':
+            idx = np.array(['id%05d' % v for v in r.permutation(n)], dtype=object)
+        elif kind == 'repeated':
+            idx = r.integers(0, max(2, n // 3), n)
+        else:
+            raise KeyError(kind)
+        df = pd.DataFrame({'A': a, 'Y': y, 'W1': w1, 'W2': w2, 'X': x}, index=idx)
+        adt = cfg.get('adtype')
+        if adt:
+            df['A'] = df['A'].astype(adt)
+        if cfg.get('wdtype'):
+            df['W1'] = df['W1'].astype(cfg['wdtype'])
+        return df
     raise RuntimeError('generator could not produce an admissible data set for %r' % (cfg,))
 
 
@@ -108,26 +142,112 @@ def formulas(cfg):
     g = 'W1 + C(W2)' + (' + X' if cfg['xcont'] else '')
     q = 'A + W1 + C(W2)' + (' + X' if cfg['xcont'] else '') + (' + A:W1' if cfg.get('inter') else '')
     m = 'A + W1' + (' + X' if cfg['xcont'] else '')
+    if cfg.get('extreme'):
+        g = 'W1 + X'
+    if cfg.get('termorder'):                            # formula term order is immaterial
+        g = ' + '.join(reversed(g.split(' + ')))
+        m = ' + '.join(reversed(m.split(' + ')))
+        q = ' + '.join(q.split(' + ')[1:] + q.split(' + ')[:1]) if not cfg.get('inter') else q
     return g, m, q
 
 
-def fit_tmle(df, cfg):
+def learner(which, cfg):
+    """sklearn-style learner for the custom_model path of nuisance model `which` ('g', 'm', 'q')"""
+    from sklearn.linear_model import LogisticRegression, LinearRegression
+    if which == 'q' and cfg['outcome'] == 'continuous':
+        return LinearRegression()
+    return LogisticRegression(C=float(cfg.get('C', 1e4)), solver='lbfgs', max_iter=2000,
+                              warm_start=bool(cfg.get('warm')))
+
+
+def new_tmle(df, cfg):
     from zepid.causal.doublyrobust import TMLE
+    if cfg['outcome'] == 'continuous':
+        return TMLE(df, exposure='A', outcome='Y', alpha=cfg['alpha'], continuous_bound=cfg['cb'])
+    return TMLE(df, exposure='A', outcome='Y', alpha=cfg['alpha'])
+
+
+def spec_model(t, cfg, which):
     gf, mf, qf = formulas(cfg)
-    if cfg['outcome'] == 'continuous':
-        t = TMLE(df, exposure='A', outcome='Y', alpha=cfg['alpha'], continuous_bound=cfg['cb'])
-    else:
-        t = TMLE(df, exposure='A', outcome='Y', alpha=cfg['alpha'])
-    t.exposure_model(gf, bound=cfg['gbound'] if cfg['gbound'] is not None else False, print_results=False)
-    if cfg['missing'] == 'model':
-        t.missing_model(mf, bound=cfg['mbound'] if cfg['mbound'] is not None else False, print_results=False)
-    if cfg['outcome'] == 'continuous':
-        t.outcome_model(qf, print_results=False, bound=cfg['qbound'] if cfg['qbound'] is not None else False,
+    custom = cfg.get('custom') or ''
+    cm = learner(which, cfg) if which in custom else None
+    if which == 'g':
+        t.exposure_model(gf, custom_model=cm, bound=cfg['gbound'] if cfg['gbound'] is not None else False,
+                         print_results=False)
+    elif which == 'm':
+        if cfg['missing'] == 'model':
+            t.missing_model(mf, custom_model=cm, bound=cfg['mbound'] if cfg['mbound'] is not None else False,
+                            print_results=False)
+    elif cfg['outcome'] == 'continuous':
+        t.outcome_model(qf, custom_model=cm, print_results=False,
+                        bound=cfg['qbound'] if cfg['qbound'] is not None else False,
                         continuous_distribution=cfg['dist'])
     else:
-        t.outcome_model(qf, print_results=False)
+        t.outcome_model(qf, custom_model=cm, print_results=False)
+
+
+def spec_all(t, cfg):
+    for which in (cfg.get('order') or 'gmq'):
+        spec_model(t, cfg, which)
+
+
+def fit_tmle(df, cfg):
+    t = new_tmle(df, cfg)
+    spec_all(t, cfg)
     t.fit()
     return t
+
+
+HISTORIES = ('single', 'refit', 'respec_q', 'respec_g', 'respec_m', 'respec_all', 'shared_frame')
+
+
+def run_history(df, cfg, cfg0, hist):
+    """drive one object through a call history whose LAST specification is `cfg` (`cfg0` = the earlier one).
+    Returns the object whose final fit is judged."""
+    import common
+    if hist == 'single':
+        return fit_tmle(df, cfg)
+    if hist == 'refit':
+        t = fit_tmle(df, cfg)
+        with common.quiet():
+            t.summary()
+        t.fit()
+        return t
+    if hist == 'shared_frame':
+        # two estimators built from the caller's one frame object; the first is specified and fitted in between
+        t = new_tmle(df, cfg)
+        other = fit_tmle(df, cfg0)
+        spec_all(t, cfg)
+        other.fit()
+        t.fit()
+        return t
+    t = fit_tmle(df, cfg0)
+    if hist == 'respec_all':
+        with common.quiet():
+            t.summary()
+        spec_all(t, cfg)
+    else:
+        # only one nuisance model is specified again; the others keep cfg0's specification, so the judged
+        # specification is cfg0 with that model's options taken from cfg (see merged_cfg)
+        spec_model(t, merged_cfg(cfg, cfg0, hist), {'respec_q': 'q', 'respec_g': 'g', 'respec_m': 'm'}[hist])
+    t.fit()
+    return t
+
+
+MODEL_KEYS = {'q': ('inter', 'qbound', 'dist'), 'g': ('gbound',), 'm': ('mbound',)}
+
+
+def merged_cfg(cfg, cfg0, hist):
+    """the specification in force at the last fit of history `hist`"""
+    if hist in ('single', 'refit', 'respec_all', 'shared_frame'):
+        return cfg
+    which = {'respec_q': 'q', 'respec_g': 'g', 'respec_m': 'm'}[hist]
+    out = dict(cfg0)
+    for k in MODEL_KEYS[which]:
+        out[k] = cfg[k]
+    out['custom'] = ''.join(sorted((set(cfg0.get('custom') or '') - {which}) |
+                                   (set(cfg.get('custom') or '') & {which})))
+    return out
 
 
 # ------------------------------------------------------------------------------------------------ reference GLM (H)
@@ -158,29 +278,48 @@ def allclose(model_list, arr, rtol=RT, atol=1e-12):
     return len(model_list) == len(arr) and all(close(m, v, rtol=rtol, atol=atol) for m, v in zip(model_list, arr))
 
 
+def cell_name(cfg):
+    return 'cell %s/%s/%s/%s' % (cfg['outcome'], cfg['missing'],
+                                 'none' if cfg['gbound'] is None else
+                                 ('sym' if isinstance(cfg['gbound'], float) else 'asym'),
+                                 'cont' if cfg['xcont'] else 'cat')
+
+
 # ------------------------------------------------------------------------------------------------ one TMLE.fit case
-def check_tmle_case(chk, drv, cfg, dseed):
-    df = gen_data(dseed, cfg)
-    n = len(df)
-    case = {'kind': 'TMLE.fit', 'cfg': cfg, 'dseed': dseed, 'n': n}
+def check_tmle_case(chk, drv, cfg, dseed, hist='single', cfg0=None):
+    """one data set, one call history on one TMLE object; the state after the last fit() is judged
+    (a) by the property's own predicates, evaluated with the A and Y *the caller passed in*, and
+    (b) against a fresh object given the last specification on a pristine copy of the caller's frame"""
+    case = {'kind': 'TMLE.fit', 'cfg': cfg, 'dseed': dseed, 'hist': hist, 'cfg0': cfg0}
+    chk.count(cell_name(cfg))
+    chk.count('history ' + hist)
+    for k in ('extreme', 'rare', 'custom', 'adtype', 'index', 'warm', 'termorder', 'order'):
+        if cfg.get(k):
+            chk.count('%s=%s' % (k, cfg[k]))
     try:
-        t = fit_tmle(df, cfg)
+        df = gen_data(dseed, cfg)
+        snap = df.copy(deep=True)                        # what the caller passed in
+        case['n'] = len(df)
+    except Exception as e:                              # noqa: BLE001
+        chk.case(case)
+        chk.d(False, 'harness could not generate the case: %s: %s' % (type(e).__name__, e), case)
+        return
+    eff = merged_cfg(cfg, cfg0, hist) if cfg0 is not None else cfg
+    try:
+        t = run_history(df, cfg, cfg0, hist)
         err = None
     except Exception as e:                              # noqa: BLE001
         t, err = None, '%s: %s' % (type(e).__name__, e)
-    chk.count('cell %s/%s/%s/%s' % (cfg['outcome'], cfg['missing'],
-                                    'none' if cfg['gbound'] is None else
-                                    ('sym' if isinstance(cfg['gbound'], float) else 'asym'),
-                                    'cont' if cfg['xcont'] else 'cat'))
-    # ---- public inputs of the targeting step
     if t is None:
-        # reference: do the documented nuisance models converge on this data set?  if the plain GLMs cannot be fitted
-        # either the case is outside the quantifier ("every model specification that converges")
+        # "every model specification that converges": if the documented parametric nuisance GLMs cannot be fitted
+        # by the harness either, the case is outside the quantifier; anything else raised on a valid input fails D
         import statsmodels.api as sm
         import statsmodels.formula.api as smf
-        gf, mf, qf = formulas(cfg)
+        gf, mf, qf = formulas(eff)
         try:
-            smf.glm('A ~ ' + gf, df, family=sm.families.family.Binomial()).fit()
+            smf.glm('A ~ ' + gf, snap.astype({'A': float}), family=sm.families.family.Binomial()).fit()
+            fam = sm.families.family.Binomial() if cfg['outcome'] == 'binary' else sm.families.family.Gaussian()
+            smf.glm('Y ~ ' + qf, snap.astype({'A': float}).dropna(), family=fam).fit()
             ref_ok = True
         except Exception:                               # noqa: BLE001
             ref_ok = False
@@ -188,13 +327,62 @@ def check_tmle_case(chk, drv, cfg, dseed):
         if not ref_ok:
             chk.discard('reference nuisance GLM failed')
             return
-        chk.d(False, 'TMLE raised on an admissible data set: ' + err, case)
+        chk.d(False, 'TMLE raised on an admissible data set / call history: ' + err, case)
         return
+    try:
+        evaluate_tmle(chk, drv, t, snap, eff, case)
+        if hist != 'single':
+            compare_fresh(chk, t, snap, eff, case)
+    except Exception as e:                              # noqa: BLE001
+        import traceback
+        chk.d(False, 'the outputs of TMLE could not be processed (%s: %s)' % (type(e).__name__, e),
+              dict(case, traceback=traceback.format_exc()[-1500:]))
+
+
+def estimates_of(t, cont):
+    names = (('average_treatment_effect', 'average_treatment_effect_se') if cont else
+             ('risk_difference', 'risk_ratio', 'odds_ratio', 'risk_difference_se', 'risk_ratio_se', 'odds_ratio_se'))
+    return {k: float(getattr(t, k)) for k in names}
+
+
+def compare_fresh(chk, t, snap, eff, case):
+    """history independence of the targeting step: same numbers as a fresh object with the last specification"""
+    fresh_cfg = dict(eff, order='gmq')
+    try:
+        f = fit_tmle(snap.copy(deep=True), fresh_cfg)
+    except Exception as e:                              # noqa: BLE001
+        chk.discard('fresh reference object raised (%s)' % type(e).__name__)
+        return
+    cont = eff['outcome'] == 'continuous'
+    a, b = estimates_of(t, cont), estimates_of(f, cont)
+    # 1e-7: custom learners (lbfgs) and IRLS stop at their own tolerances; identical inputs give identical bits in
+    # practice, the slack only admits solver noise
+    bad = [k for k in a if not close(a[k], b[k], rtol=1e-7, atol=1e-9)]
+    pa, pb = t._verif_probe_, f._verif_probe_
+    for k in ('Qstar', 'Qstar1', 'Qstar0'):
+        if not allclose(np.asarray(pa[k], dtype=float).tolist(), pb[k], rtol=1e-7, atol=1e-9):
+            bad.append(k)
+    chk.d(not bad, 'after the call history the estimates and targeted predictions equal those of a fresh object with '
+          'the last specification', dict(case, differs=bad, history=a, fresh=b))
+
+
+def evaluate_tmle(chk, drv, t, snap, cfg, case):
+    n = len(snap)
     p = t._verif_probe_
-    a = np.asarray(t.df['A'], dtype=float)
-    y = np.asarray(t.df['Y'], dtype=float)              # unit scale for continuous outcomes
-    y_in = np.asarray(df['Y'], dtype=float)              # what the user passed in (same row order)
-    obs = ~np.isnan(y)
+    cont = cfg['outcome'] == 'continuous'
+    # ---- what the caller passed in (row order is preserved; no covariate is missing, so no row is dropped)
+    a = np.asarray(snap['A'], dtype=float)
+    y_in = np.asarray(snap['Y'], dtype=float)
+    obs = ~np.isnan(y_in)
+    lo, hi = (float(np.nanmin(y_in)), float(np.nanmax(y_in))) if cont else (0.0, 1.0)
+    if cont:                                            # the documented unit-interval map, computed by the harness
+        cb = cfg['cb']
+        y = np.clip((y_in - lo) / (hi - lo), cb, 1 - cb)
+    else:
+        cb = 0.0
+        y = y_in.copy()
+    a_lib = np.asarray(t.df['A'], dtype=float)
+    y_lib = np.asarray(t.df['Y'], dtype=float)
     q1 = np.asarray(t.QA1W, dtype=float)
     q0 = np.asarray(t.QA0W, dtype=float)
     g1 = np.asarray(t.g1W, dtype=float)
@@ -205,8 +393,7 @@ def check_tmle_case(chk, drv, cfg, dseed):
     gt1 = g1 * m1 if usemiss else g1                    # independent recomputation of the total probabilities
     gt0 = g0 * m0 if usemiss else g0
     eps = np.asarray(p['epsilon'], dtype=float)
-    cont = cfg['outcome'] == 'continuous'
-    lo, hi = (float(np.nanmin(y_in)), float(np.nanmax(y_in))) if cont else (0.0, 1.0)
+    qs, qs1, qs0 = (np.asarray(p[k], dtype=float) for k in ('Qstar', 'Qstar1', 'Qstar0'))
     if cfg['gbound'] is None:
         truncated = False
     else:
@@ -214,30 +401,119 @@ def check_tmle_case(chk, drv, cfg, dseed):
         truncated = bool(np.any(np.isin(g1, ends)) or np.any(np.isin(g0, ends)))
     moved = bool(abs(eps[0]) > 1e-6 and abs(eps[1]) > 1e-6)
     nontriv = moved and (cfg['gbound'] is None or truncated)
-    chk.case(case, (repr(sorted(cfg.items())), dseed) if nontriv else None,
-             sample={'cfg': cfg, 'dseed': dseed, 'n': n, 'n_missing': int((~obs).sum()), 'epsilon': eps.tolist(),
+    chk.case(case, (repr(sorted(cfg.items(), key=str)), case['dseed'], case.get('hist')) if nontriv else None,
+             sample={'cfg': cfg, 'dseed': case['dseed'], 'hist': case.get('hist'), 'n': n,
+                     'n_missing': int((~obs).sum()), 'epsilon': eps.tolist(),
                      'estimate': float(t.average_treatment_effect if cont else t.risk_difference)}
              if chk.evals % 7 == 0 else None)
     chk.count('n_missing_outcome>0' if (~obs).any() else 'complete_outcome')
     chk.count('g_truncated' if truncated else 'g_not_truncated')
+    if cfg.get('extreme'):
+        big = max(float(np.max(eps[0] / gt1)), float(np.max(-eps[1] / gt0)))
+        chk.count('extreme: eps/g > 709 on some row' if big > 709 else 'extreme: eps/g <= 709')
+        chk.extra['min_g_seen'] = min(chk.extra.get('min_g_seen', 1.0), float(gt1.min()), float(gt0.min()))
 
-    # ---- H: reference fluctuation fit
+    # ---- D, independent of whether the fluctuation GLM converged: shapes, the estimator's copy of the data,
+    #      finiteness, range, plug-ins
+    shapes = all(len(v) == n for v in (a_lib, y_lib, q1, q0, g1, g0, qs, qs1, qs0, p['H1W'], p['H0W']))
+    chk.d(shapes, 'one nuisance / targeted prediction per row of the data', case)
+    if not shapes:
+        return
+    chk.d(allclose(a_lib.tolist(), a, rtol=0, atol=0), 'the exposure column TMLE works with is the caller\'s', case)
+    chk.d(bool(np.array_equal(np.isnan(y_lib), ~obs)) and allclose(y_lib[obs].tolist(), y[obs], rtol=1e-12, atol=1e-15),
+          'the outcome column TMLE works with is the caller\'s outcome (unit-interval map for continuous outcomes)',
+          case)
+    nuis_ok = all(bool(np.all(np.isfinite(v))) for v in (q1, q0, gt1, gt0)) and \
+        bool(np.all((q1 >= 0) & (q1 <= 1) & (q0 >= 0) & (q0 <= 1) & (gt1 > 0) & (gt1 <= 1) & (gt0 > 0) & (gt0 <= 1)))
+    chk.d(nuis_ok, 'nuisance predictions handed to the targeting step are finite probabilities', case)
+    if not nuis_ok:
+        return
+    w1 = a / gt1
+    w0 = (1 - a) / gt0
+    # ---- H: reference fluctuation fit (documented arguments, caller's A and Y, the object's current nuisance output)
     qa = q1 * a + q0 * (1 - a)
+    tol = SCORE_TOL * n
     ref = reference_fluctuation(y, a, qa, gt1, gt0)
-    if ref is None or not all(math.isfinite(s) and abs(s) <= SCORE_TOL * n for s in ref[1]):
+    if ref is None or not all(math.isfinite(s) and abs(s) <= tol for s in ref[1]):
         chk.discard('reference fluctuation GLM did not converge')
         return
     chk.h_checked += 1
     chk.extra['max_ref_score'] = max(chk.extra.get('max_ref_score', 0.0), abs(ref[1][0]), abs(ref[1][1]))
 
+    fin = all(np.all(np.isfinite(v)) for v in (qs, qs1, qs0))
+    chk.d(fin, 'targeted predictions are finite', case)
+    est = estimates_of(t, cont)
+    chk.d(all(math.isfinite(v) for v in est.values()), 'reported estimates and standard errors are finite',
+          dict(case, est=est))
+    if not fin:
+        return
+    inunit = all(bool(np.all((v >= 0) & (v <= 1))) for v in (qs, qs1, qs0))
+    chk.d(inunit, 'every targeted prediction lies in [0,1]', case)
+    mn1, mn0 = np.float64(np.mean(qs1)), np.float64(np.mean(qs0))
+    if cont:
+        plug = {'average_treatment_effect': (hi - lo) * (mn1 - mn0)}
+    else:
+        plug = {'risk_difference': mn1 - mn0, 'risk_ratio': mn1 / mn0,
+                'odds_ratio': (mn1 / (1 - mn1)) / (mn0 / (1 - mn0))}
+    for name, want in plug.items():
+        got = float(getattr(t, name))
+        # 1e-10 relative (+1e-12 abs): mean of differences vs difference of means, and unbound-then-average vs
+        # average-then-unbound, differ by rounding only
+        chk.d(close(got, want, rtol=1e-10, atol=1e-12 * max(1.0, hi - lo)),
+              'reported %s is the plug-in of the means of the targeted predictions' % name,
+              dict(case, reported=got, plugin=want))
+    others = ('risk_difference', 'risk_ratio', 'odds_ratio') if cont else ('average_treatment_effect',)
+    chk.d(all(getattr(t, o) is None for o in others), 'only the measures of the outcome type are reported', case)
+    # initial predictions were clipped into [bound, 1-bound] (else logit is undefined)
+    qb = cfg.get('qbound') if cont and cfg.get('qbound') is not None else (cfg['cb'] if cont else 0.0)
+    chk.d(bool(np.all((q1 >= qb) & (q1 <= 1 - qb) & (q0 >= qb) & (q0 <= 1 - qb))),
+          'initial predictions lie in [bound, 1-bound]', case)
+    if cont:
+        slack = 1e-12 * max(1.0, abs(lo), abs(hi))
+        for v in (qs, qs1, qs0):
+            back = v * (hi - lo) + lo
+            chk.d(bool(np.all((back >= lo - slack) & (back <= hi + slack))),
+                  'back-transformed targeted predictions lie within the observed outcome range', case)
+        ate = float(t.average_treatment_effect)
+        chk.d(abs(ate) <= (hi - lo) + slack, 'ATE within +-(max - min)', dict(case, ate=ate))
+        # unit-interval round trip of the outcome column the estimator holds
+        back = y_lib[obs] * (hi - lo) + lo
+        inner = (y_in[obs] - lo) / (hi - lo)
+        inside = (inner >= cb) & (inner <= 1 - cb)
+        chk.d(bool(np.all(np.abs(back - y_in[obs])[inside] <= 1e-12 * max(1.0, abs(lo), abs(hi)))) and
+              bool(np.all(np.abs(back - y_in[obs]) <= cb * (hi - lo) + slack)),
+              'unit-interval map and back-map: identity inside the clip region, moved by <= cb*(max-min) at the ends',
+              case)
+        chk.d(bool(np.all((y_lib[obs] >= cb) & (y_lib[obs] <= 1 - cb))), 'scaled outcome lies in [cb, 1-cb]', case)
+    else:
+        rd, rr, orr = float(t.risk_difference), float(t.risk_ratio), float(t.odds_ratio)
+        chk.d(-1 <= rd <= 1 and rr >= 0 and orr >= 0 and 0 <= mn1 <= 1 and 0 <= mn0 <= 1,
+              'risks in [0,1], RD in [-1,1], RR and OR non-negative', dict(case, rd=rd, rr=rr, odds_ratio=orr))
+    # the clever covariates the code used are A/g_total and -(1-A)/g_total with the caller's A and the *total* g
+    chk.d(allclose(np.asarray(p['H1W'], dtype=float).tolist(), w1, rtol=1e-12) and
+          allclose(np.asarray(p['H0W'], dtype=float).tolist(), -w0, rtol=1e-12),
+          'clever covariates are A/g1 and -(1-A)/g0 with g the total (treatment x observation) probabilities', case)
+    chk.d(allclose(qs.tolist(), np.where(a == 1, qs1, qs0), rtol=RT),
+          'Q* under the observed treatment equals the counterfactual prediction of that arm', case)
+
+    # ---- D: both efficient-score equations, on the caller's A and Y with independently recomputed g
+    sums = {'A/g1*(Y-Q*)': float(np.sum((w1 * (y - qs))[obs])), '(1-A)/g0*(Y-Q*)': float(np.sum((w0 * (y - qs))[obs])),
+            'A/g1*(Y-Q*1)': float(np.sum((w1 * (y - qs1))[obs])),
+            '(1-A)/g0*(Y-Q*0)': float(np.sum((w0 * (y - qs0))[obs]))}
+    chk.extra['max_eff_score'] = max([chk.extra.get('max_eff_score', 0.0)] + [abs(v) for v in sums.values()])
+    for name, v in sums.items():
+        chk.d(abs(v) <= tol, 'efficient score equation: sum over observed rows of %s vanishes (<= 1e-7 n)' % name,
+              dict(case, sum=v, tol=tol))
+
     # ---- K (nuisance layer): zEpid's coefficients are those of the documented fluctuation model.
     # 1e-6: both are IRLS solutions of the same strictly concave problem; they differ by convergence error only
-    chk.k(all(close(e, r, rtol=1e-6, atol=1e-8) for e, r in zip(eps, ref[0])),
-          'fluctuation coefficients = reference GLM(Y ~ -1 + H1W + H0W, offset logit QAW) coefficients',
-          {'case': case, 'eps': eps.tolist(), 'ref': ref[0].tolist()})
+    # (near-positivity data: the likelihood is flat in the direction of the huge clever covariates, not compared)
+    if not cfg.get('extreme'):
+        chk.k(all(close(e, r, rtol=1e-6, atol=1e-8) for e, r in zip(eps, ref[0])),
+              'fluctuation coefficients = reference GLM(Y ~ -1 + H1W + H0W, offset logit QAW) coefficients',
+              {'case': case, 'eps': eps.tolist(), 'ref': ref[0].tolist()})
 
     # ---- K (model layer)
-    qs, qs1, qs0 = (np.asarray(p[k], dtype=float) for k in ('Qstar', 'Qstar1', 'Qstar0'))
     if drv is not None:
         alpha = cfg['alpha']
         kw = dict(kind=cfg['outcome'], usemiss=int(usemiss), a=enc_list(a.astype(int).tolist(), str),
@@ -250,6 +526,7 @@ def check_tmle_case(chk, drv, cfg, dseed):
         rep, line = drv.ask('tmle', **kw)
         ok = rep['status'] == 'ok'
         detail = {}
+        pairs = []
         if ok:
             cmp = [('gt1', t.g1W_total), ('gt0', t.g0W_total), ('sA', qs), ('s1', qs1), ('s0', qs0)]
             for key, arr in cmp:
@@ -284,74 +561,8 @@ def check_tmle_case(chk, drv, cfg, dseed):
             rep, _ = drv.ask('unit', y=fl_list(np.where(np.isnan(y_in), 0.0, y_in)), mini=fx(lo), maxi=fx(hi),
                              cb=fx(cfg['cb']))
             okb = rep['status'] == 'ok' and allclose([v for v, o in zip(dec_list(rep['bounded'], unfx), obs) if o],
-                                                     y[obs], rtol=1e-12, atol=1e-15)
+                                                     y_lib[obs], rtol=1e-12, atol=1e-15)
             chk.k(okb, 'generated tmle_unit_bounds vs the outcome column TMLE works with', {'case': case})
-
-    # ---- D: the property's predicates on the real arrays
-    tol = SCORE_TOL * n
-    fin = all(np.all(np.isfinite(v)) for v in (qs, qs1, qs0))
-    chk.d(fin, 'targeted predictions are finite', case)
-    if not fin:
-        return
-    w1 = a / gt1
-    w0 = (1 - a) / gt0
-    sums = {'A/g1*(Y-Q*)': float(np.sum((w1 * (y - qs))[obs])), '(1-A)/g0*(Y-Q*)': float(np.sum((w0 * (y - qs))[obs])),
-            'A/g1*(Y-Q*1)': float(np.sum((w1 * (y - qs1))[obs])),
-            '(1-A)/g0*(Y-Q*0)': float(np.sum((w0 * (y - qs0))[obs]))}
-    chk.extra['max_eff_score'] = max([chk.extra.get('max_eff_score', 0.0)] + [abs(v) for v in sums.values()])
-    for name, v in sums.items():
-        chk.d(abs(v) <= tol, 'efficient score equation: sum over observed rows of %s vanishes (<= 1e-7 n)' % name,
-              dict(case, sum=v, tol=tol))
-    # the clever covariates the code used are A/g_total and -(1-A)/g_total with the *total* probabilities
-    chk.d(allclose(p['H1W'].tolist(), w1, rtol=1e-12) and allclose(p['H0W'].tolist(), -w0, rtol=1e-12),
-          'clever covariates are A/g1 and -(1-A)/g0 with g the total (treatment x observation) probabilities', case)
-    chk.d(allclose(qs.tolist(), np.where(a == 1, qs1, qs0), rtol=RT),
-          'Q* under the observed treatment equals the counterfactual prediction of that arm', case)
-    # plug-ins of the means of the probe arrays
-    mn1, mn0 = float(np.mean(qs1)), float(np.mean(qs0))
-    if cont:
-        plug = {'average_treatment_effect': (hi - lo) * (mn1 - mn0)}
-    else:
-        plug = {'risk_difference': mn1 - mn0, 'risk_ratio': mn1 / mn0,
-                'odds_ratio': (mn1 / (1 - mn1)) / (mn0 / (1 - mn0))}
-    for name, want in plug.items():
-        got = float(getattr(t, name))
-        # 1e-10 relative (+1e-12 abs): mean of differences vs difference of means, and unbound-then-average vs
-        # average-then-unbound, differ by rounding only
-        chk.d(close(got, want, rtol=1e-10, atol=1e-12 * max(1.0, hi - lo)),
-              'reported %s is the plug-in of the means of the targeted predictions' % name,
-              dict(case, reported=got, plugin=want))
-    others = ('risk_difference', 'risk_ratio', 'odds_ratio') if cont else ('average_treatment_effect',)
-    chk.d(all(getattr(t, o) is None for o in others), 'only the measures of the outcome type are reported', case)
-    # range
-    inunit = all(bool(np.all((v >= 0) & (v <= 1))) for v in (qs, qs1, qs0))
-    chk.d(inunit, 'every targeted prediction lies in [0,1]', case)
-    # initial predictions were clipped into [bound, 1-bound] (else logit is undefined)
-    qb = cfg.get('qbound') if cont and cfg.get('qbound') is not None else (cfg['cb'] if cont else 0.0)
-    chk.d(bool(np.all((q1 >= qb) & (q1 <= 1 - qb) & (q0 >= qb) & (q0 <= 1 - qb))),
-          'initial predictions lie in [bound, 1-bound]', case)
-    if cont:
-        slack = 1e-12 * max(1.0, abs(lo), abs(hi))
-        for v in (qs, qs1, qs0):
-            back = v * (hi - lo) + lo
-            chk.d(bool(np.all((back >= lo - slack) & (back <= hi + slack))),
-                  'back-transformed targeted predictions lie within the observed outcome range', case)
-        ate = float(t.average_treatment_effect)
-        chk.d(abs(ate) <= (hi - lo) + slack, 'ATE within +-(max - min)', dict(case, ate=ate))
-        # unit-interval round trip of the outcome itself
-        back = y[obs] * (hi - lo) + lo
-        cb = cfg['cb']
-        inner = (y_in[obs] - lo) / (hi - lo)
-        inside = (inner >= cb) & (inner <= 1 - cb)
-        chk.d(bool(np.all(np.abs(back - y_in[obs])[inside] <= 1e-12 * max(1.0, abs(lo), abs(hi)))) and
-              bool(np.all(np.abs(back - y_in[obs]) <= cb * (hi - lo) + slack)),
-              'unit-interval map and back-map: identity inside the clip region, moved by <= cb*(max-min) at the ends',
-              case)
-        chk.d(bool(np.all((y[obs] >= cb) & (y[obs] <= 1 - cb))), 'scaled outcome lies in [cb, 1-cb]', case)
-    else:
-        rd, rr, orr = float(t.risk_difference), float(t.risk_ratio), float(t.odds_ratio)
-        chk.d(-1 <= rd <= 1 and rr >= 0 and orr >= 0 and 0 <= mn1 <= 1 and 0 <= mn0 <= 1,
-              'risks in [0,1], RD in [-1,1], RR and OR non-negative', dict(case, rd=rd, rr=rr, odds_ratio=orr))
 
 
 # ------------------------------------------------------------------------------------------------ cross-fit
@@ -378,6 +589,8 @@ def gen_cf(dseed, cfg):
         y = (r.uniform(size=n) < truth).astype(float)
     else:
         y = np.clip(truth + r.normal(0, 0.15, n), 0.0005, 0.9995)
+    if cfg.get('adtype'):
+        a = a.astype(cfg['adtype'])
     return dict(y=y, a=a, py_a=py_a, py_n=py_n, pa1=pa1, pa0=1 - pa1, splits=splits)
 
 
@@ -497,6 +710,7 @@ def check_cf_direct(chk, drv, cfg, dseed):
     moved = all(abs(q['epsilon'][0]) > 1e-6 and abs(q['epsilon'][1]) > 1e-6 for q in probes)
     chk.case(case, ('cf', repr(sorted(cfg.items(), key=str)), dseed) if moved else None)
     chk.count('crossfit_direct_%s_k%d' % (cfg['outcome'], cfg['k']))
+    chk.count('crossfit adtype=%s' % cfg.get('adtype'))
     eval_targeting(chk, drv, case, kw, out, probes,
                    cont_range=(cfg['lo'], cfg['hi']) if cfg['outcome'] == 'continuous' else None)
 
@@ -508,7 +722,8 @@ def check_cf_estimator(chk, drv, cfg, dseed):
     from zepid.causal.doublyrobust import SingleCrossfitTMLE, DoubleCrossfitTMLE
     from zepid.superlearner import GLMSL
     mod = crossfit_module()
-    dcfg = dict(outcome=cfg['outcome'], missing='none', xcont=True, nlo=cfg['nlo'], nhi=cfg['nhi'])
+    dcfg = dict(outcome=cfg['outcome'], missing='none', xcont=True, nlo=cfg['nlo'], nhi=cfg['nhi'],
+                adtype=cfg.get('adtype'), index='range')
     df = gen_data(dseed, dcfg).reset_index(drop=True)
     case = {'kind': cfg['estimator'], 'cfg': cfg, 'dseed': dseed, 'n': len(df)}
     binom = sm.families.family.Binomial()
@@ -543,6 +758,7 @@ def check_cf_estimator(chk, drv, cfg, dseed):
         del mod._VERIF_PROBE_[:]
     chk.case(case, ('cfe', repr(sorted(cfg.items(), key=str)), dseed) if not err else None)
     chk.count('crossfit_%s_%s' % (cfg['estimator'], cfg['outcome']))
+    chk.count('crossfit adtype=%s' % cfg.get('adtype'))
     if err is not None:
         chk.d(False, '%s raised on an admissible data set: %s' % (cfg['estimator'], err), case)
         return
@@ -605,35 +821,104 @@ def check_unit_exact(chk, drv, rng, reps):
 
 
 # ------------------------------------------------------------------------------------------------ driver
+def spec_options(rng, outcome, missing, gkind, plain=False):
+    """options of the three nuisance-model specifications (everything that can be re-specified on a live object)"""
+    if gkind == 'none':
+        gb = None
+    elif gkind == 'sym':
+        gb = float(np.round(rng.uniform(0.1, 0.42), 3))
+    else:
+        gb = [float(np.round(rng.uniform(0.05, 0.42), 3)), float(np.round(rng.uniform(0.55, 0.9), 3))]
+    cont = outcome == 'continuous'
+    opts = dict(gbound=gb, inter=bool(rng.integers(0, 2)),
+                qbound=(None if rng.uniform() < 0.6 else float(rng.choice([0.05, 0.1]))) if cont else None,
+                dist=(str(rng.choice(['gaussian', 'gaussian', 'poisson'])) if cont else None),
+                mbound=(None if rng.uniform() < 0.5 else float(rng.choice([0.15, 0.2]))) if missing == 'model' else None)
+    if plain:
+        opts.update(custom='', order='gmq')
+    else:
+        pool = 'gmq' if missing == 'model' else 'gq'
+        custom = ''.join(w for w in pool if rng.uniform() < 0.25)
+        if custom and 'q' in custom and cont:
+            opts['dist'] = 'gaussian'
+        order = ''.join(rng.permutation(list('gmq')).tolist())
+        opts.update(custom=custom, order=order, warm=bool(custom and rng.uniform() < 0.3),
+                    termorder=bool(rng.uniform() < 0.3))
+    return opts
+
+
+def data_options(rng, outcome, missing, xcont, tier, plain=False):
+    d = dict(outcome=outcome, missing=missing, xcont=xcont, alpha=float(rng.choice([0.05, 0.1, 0.01])),
+             nlo=150, nhi=400 if tier == 'quick' else 900,
+             cb=float(rng.choice([0.0005, 0.02])) if outcome == 'continuous' else None)
+    if not plain:
+        d.update(adtype=str(rng.choice(['int64', 'int64', 'int8', 'uint8', 'uint16', 'float64', 'int32'])),
+                 wdtype=str(rng.choice(['int64', 'int16', 'float32'])),
+                 index=str(rng.choice(['range', 'shifted', 'even', 'string', 'repeated'])))
+    return d
+
+
 def tmle_cells(rng, tier):
-    reps = 4 if tier == 'quick' else 40
+    """yields (cfg, dseed, history, cfg0)"""
+    def seed():
+        return int(rng.integers(0, 2 ** 31 - 1))
+    # (1) the configuration grid, single fit; odd repetitions vary containers / dtypes / call order / custom learners
+    reps = 2 if tier == 'quick' else 16
     for outcome in ('binary', 'continuous'):
         for missing in ('none', 'nomodel', 'model'):
             for gkind in ('none', 'sym', 'asym'):
                 for xcont in (False, True):
                     for rep in range(reps):
-                        if gkind == 'none':
-                            gb = None
-                        elif gkind == 'sym':
-                            gb = float(np.round(rng.uniform(0.1, 0.42), 3))
-                        else:
-                            gb = [float(np.round(rng.uniform(0.05, 0.42), 3)), float(np.round(rng.uniform(0.55, 0.9), 3))]
-                        cfg = dict(outcome=outcome, missing=missing, gbound=gb, xcont=xcont,
-                                   alpha=float(rng.choice([0.05, 0.1, 0.01])), inter=bool(rng.integers(0, 2)),
-                                   nlo=150, nhi=400 if tier == 'quick' else 900,
-                                   cb=float(rng.choice([0.0005, 0.02])) if outcome == 'continuous' else None,
-                                   qbound=(None if rng.uniform() < 0.6 else float(rng.choice([0.05, 0.1])))
-                                   if outcome == 'continuous' else None,
-                                   dist=(str(rng.choice(['gaussian', 'gaussian', 'poisson']))
-                                         if outcome == 'continuous' else None),
-                                   mbound=(None if rng.uniform() < 0.5 else float(rng.choice([0.15, 0.2])))
-                                   if missing == 'model' else None)
-                        yield cfg, int(rng.integers(0, 2 ** 31 - 1))
+                        plain = rep % 2 == 0
+                        cfg = data_options(rng, outcome, missing, xcont, tier, plain)
+                        cfg.update(spec_options(rng, outcome, missing, gkind, plain))
+                        yield cfg, seed(), 'single', None
+    # (2) call histories on one object / across objects sharing the caller's frame
+    reps = 1 if tier == 'quick' else 8
+    for hist in HISTORIES[1:]:
+        for outcome in ('binary', 'continuous'):
+            for missing in ('none', 'nomodel', 'model'):
+                if hist == 'respec_m' and missing != 'model':
+                    continue
+                for rep in range(reps):
+                    gk = str(rng.choice(['none', 'sym', 'asym']))
+                    base = data_options(rng, outcome, missing, bool(rng.integers(0, 2)), tier, plain=rep % 2 == 1)
+                    cfg = dict(base, **spec_options(rng, outcome, missing, gk))
+                    cfg0 = dict(base, **spec_options(rng, outcome, missing, str(rng.choice(['none', 'sym', 'asym']))))
+                    if hist == 'respec_q':                 # make sure the outcome model really changes
+                        cfg0['inter'] = not cfg['inter']
+                    yield cfg, seed(), hist, cfg0
+    # (3) the custom_model path of every nuisance model, alone and together
+    reps = 1 if tier == 'quick' else 6
+    for outcome in ('binary', 'continuous'):
+        for custom, missing in (('g', 'none'), ('q', 'nomodel'), ('m', 'model'), ('gmq', 'model'), ('gq', 'model')):
+            for rep in range(reps):
+                cfg = data_options(rng, outcome, missing, True, tier)
+                cfg.update(spec_options(rng, outcome, missing, str(rng.choice(['none', 'sym']))))
+                cfg.update(custom=custom, warm=bool(rep % 2))
+                if outcome == 'continuous':
+                    cfg['dist'] = 'gaussian'
+                yield cfg, seed(), 'single', None
+    # (4) extreme but valid data: near-positivity violations without truncation of g; rare outcomes
+    reps = 3 if tier == 'quick' else 15
+    for outcome in ('binary', 'continuous'):
+        for missing in ('none', 'model'):
+            for rep in range(reps):
+                cfg = data_options(rng, outcome, missing, True, tier, plain=True)
+                cfg.update(spec_options(rng, outcome, missing, 'none', plain=True))
+                cfg.update(extreme=True, nlo=700, nhi=1200, inter=False)
+                yield cfg, seed(), 'single', None
+    for missing in ('none', 'nomodel', 'model'):
+        for rep in range(2 if tier == 'quick' else 10):
+            cfg = data_options(rng, 'binary', missing, bool(rep % 2), tier, plain=True)
+            cfg.update(spec_options(rng, 'binary', missing, str(rng.choice(['none', 'sym'])), plain=True))
+            cfg.update(rare=True, nlo=500, nhi=1000, inter=False)
+            yield cfg, seed(), 'single', None
 
 
 def run(chk, drv, rng, tier):
-    for cfg, dseed in tmle_cells(rng, tier):
-        check_tmle_case(chk, drv, cfg, dseed)
+    for cfg, dseed, hist, cfg0 in tmle_cells(rng, tier):
+        check_tmle_case(chk, drv, cfg, dseed, hist, cfg0)
     # cross-fit targeting step, direct
     reps = 5 if tier == 'quick' else 60
     for outcome in ('binary', 'continuous'):
@@ -641,7 +926,8 @@ def run(chk, drv, rng, tier):
             for gclip in (None, (0.1, 0.9), (0.3, 0.6)):
                 for _ in range(reps):
                     cfg = dict(outcome=outcome, k=k, gclip=gclip, nlo=60, nhi=200 if tier == 'quick' else 500,
-                               lo=-3.5, hi=41.25)
+                               lo=-3.5, hi=41.25,
+                               adtype=str(rng.choice(['float64', 'int64', 'uint8', 'uint16', 'int8'])))
                     check_cf_direct(chk, drv, cfg, int(rng.integers(0, 2 ** 31 - 1)))
     # cross-fit estimators end to end
     reps = 2 if tier == 'quick' else 12
@@ -652,7 +938,7 @@ def run(chk, drv, rng, tier):
                     for _ in range(reps):
                         gb = None if rng.uniform() < 0.5 else [0.2, 0.7]
                         cfg = dict(estimator=estimator, outcome=outcome, learner=learner, k=k, gbound=gb, nlo=300,
-                                   nhi=600)
+                                   nhi=600, adtype=str(rng.choice(['int64', 'uint8', 'uint16', 'int8', 'float64'])))
                         check_cf_estimator(chk, drv, cfg, int(rng.integers(0, 2 ** 31 - 1)))
     check_unit_exact(chk, drv, rng, 40 if tier == 'quick' else 400)
     chk.extra['exhaustive'] = False
@@ -661,7 +947,9 @@ def run(chk, drv, rng, tier):
         # too few surviving cases: inconclusive (exit 2 through check.py's handler), never a silent pass
         raise RuntimeError('C03 inconclusive: %d of %d cases discarded (%r)' % (nd, chk.evals, chk.discards))
     chk.extra['config_cells'] = ('TMLE.fit: 2 outcome types x 3 missingness modes x 3 g-bound kinds x 2 covariate sets = '
-                                 '36 cells; targeting_step: 2 x 3 split counts x 3 clip settings = 18 cells; estimators: '
+                                 '36 cells; histories: 6 kinds x 2 outcome types x 3 missingness modes; custom_model: 5 '
+                                 'learner placements x 2 outcome types; extreme: near-positivity 2 x 2, rare outcome x 3; '
+                                 'targeting_step: 2 x 3 split counts x 3 clip settings = 18 cells; estimators: '
                                  '2 classes x 2 outcome types x 2 learners')
 
 
@@ -677,12 +965,12 @@ def replay(rec):
         for f in rec.get('failures', []) + rec.get('k_failures', []):
             case = f.get('case') or {}
             case = case.get('case', case)
-            key = (case.get('kind'), repr(case.get('cfg')), case.get('dseed'))
+            key = (case.get('kind'), repr(case.get('cfg')), case.get('dseed'), case.get('hist'), repr(case.get('cfg0')))
             if case.get('kind') is None or key in seen:
                 continue
             seen.add(key)
             if case['kind'] == 'TMLE.fit':
-                check_tmle_case(chk, drv, case['cfg'], case['dseed'])
+                check_tmle_case(chk, drv, case['cfg'], case['dseed'], case.get('hist', 'single'), case.get('cfg0'))
             elif case['kind'] == 'targeting_step':
                 cfg = dict(case['cfg'])
                 if cfg.get('gclip') is not None:
